@@ -54,8 +54,10 @@ func c15Body(x *mc.Exec) {
 			typeNames = []string{"b", "a"}
 		}
 	}
+	// Rels maps built by hand may use keys that are not the relationship names
+	byName := x.Choose(2, "map keys") == 0
 	s := &j.Schema{}
-	desc := fmt.Sprintf("types %v: ", typeNames)
+	desc := fmt.Sprintf("types %v (keys by name: %v): ", typeNames, byName)
 	type placed struct {
 		owner string
 		rel   j.Rel
@@ -73,7 +75,11 @@ func c15Body(x *mc.Exec) {
 		}
 		for _, name := range slots {
 			if r, ok, d := c15Slot(x, tn, other, name, targets); ok {
-				t.Rels[name] = r
+				key := name
+				if !byName {
+					key = map[string]string{"x": "k1", "y": "k0"}[name]
+				}
+				t.Rels[key] = r
 				all = append(all, placed{tn, r})
 				desc += d
 			}
@@ -148,8 +154,8 @@ func c15Body(x *mc.Exec) {
 func init() {
 	Register(&Prop{
 		ID: "C15",
-		Rule: "Engine A: ALL schemas over types {a,b} (type c always missing; thorough adds a third type d): per type two relationship slots x,y, each absent or target{a,b,c} x inverse{\"\",x,y} x FromType{owner,other} (19 options per slot, 19^4 + smaller type sets), both type orders; the iteration order of every map loop instance inside Check is a deviation-bounded choice (bound 1). Oracle: independent offender count; Check()==[] iff no offender, len(Check()) >= offenders, no panic, deep snapshot of the schema unchanged. Non-trivial = schema with some but not all relationships offending",
+		Rule: "Engine A: ALL schemas over types {a,b} (type c always missing; thorough adds a third type d): per type two relationship slots x,y, each absent or target{a,b,c} x inverse{\"\",x,y} x FromType{owner,other} (19 options per slot, 19^4 + smaller type sets), both type orders, relationships stored under their names or under unrelated map keys; the iteration order of every map loop instance inside Check is a deviation-bounded choice (bound 1). Oracle: independent offender count; Check()==[] iff no offender, len(Check()) >= offenders, no panic, deep snapshot of the schema unchanged. Non-trivial = schema with some but not all relationships offending",
 		Assumptions: []string{"'names it back' is the pair-of-names test of the statement; whether the inverse also points at the owning type is not demanded (weaker reading)"},
-		Harnesses: []Harness{{Name: "C15/all-schemas", Body: c15Body, Dev: func() int { return 1 }}},
+		Harnesses: []Harness{{Name: "C15/all-schemas", Body: c15Body, ShardDepth: 3, Dev: func() int { return 1 }}},
 	})
 }
